@@ -18,15 +18,33 @@ Proof. exact imports_nothing_unmentioned_added. Qed.
 Print Assumptions C11_nothing_unmentioned_added.
 
 (* A matched import is deleted only by the rule: its package name was taken over by a '+'
-   import, or no selector on that name (without an object) remains in the rewritten file. *)
-Theorem C11_matched_deleted_iff : forall id names tree imps pb pk im,
+   import, or no selector on that name (without an object) remains in the rewritten file - and
+   never when it is a blank or dot import that the '+' side of the patch lists as well. *)
+Theorem C11_matched_deleted_iff : forall bl dt plus id names tree imps pb pk im,
   (match assoc_ikey (fst pb, fst (snd pb)) (id_bound id) with
    | Some (n, true) => (n, None) | Some (n, false) => (n, Some n) | None => (snd (snd pb), None) end) = (pk, im) ->
-  cleanup_import id names tree imps pb =
-    if existsb (N.eqb pk) names || negb (uses_name (S (size tree)) pk tree)
+  cleanup_import bl dt plus id names tree imps pb =
+    if match im with Some n => (N.eqb n bl || N.eqb n dt) && existsb (fun q => ikey_eqb (p_path q, p_name q) (fst pb, fst (snd pb))) plus | None => false end
+    then imps
+    else if existsb (N.eqb pk) names || negb (uses_name (S (size tree)) pk tree)
     then del_import imps im (fst pb) else imps.
-Proof. intros id names tree imps pb pk im H. unfold cleanup_import. rewrite H. reflexivity. Qed.
+Proof. intros bl dt plus id names tree imps pb pk im H. unfold cleanup_import. rewrite H. reflexivity. Qed.
 Print Assumptions C11_matched_deleted_iff.
+
+(* a blank or dot import on a line that is on both sides of the patch is kept *)
+Theorem C11_context_blank_or_dot_import_kept : forall bl dt plus id names tree imps path pname base n,
+  assoc_ikey (path, pname) (id_bound id) = Some (n, false) -> (n = bl \/ n = dt) ->
+  In (path, pname) (map (fun q => (p_path q, p_name q)) plus) ->
+  cleanup_import bl dt plus id names tree imps (path, (pname, base)) = imps.
+Proof.
+  intros bl dt plus id names tree imps path pname base n Ha Hn Hin. unfold cleanup_import. cbn [fst snd]. rewrite Ha.
+  assert ((N.eqb n bl || N.eqb n dt)%bool = true) as E1 by (destruct Hn as [E|E]; rewrite E, N.eqb_refl; [reflexivity|apply Bool.orb_true_r]).
+  rewrite E1.
+  assert (existsb (fun q => ikey_eqb (p_path q, p_name q) (path, pname)) plus = true) as E2; [|rewrite E2; reflexivity].
+  apply existsb_exists. apply in_map_iff in Hin as [q [Eq Hq]]. exists q. split; [exact Hq|].
+  inversion Eq; subst. unfold ikey_eqb. cbn [fst snd]. rewrite N.eqb_refl. destruct (p_name q); [apply N.eqb_refl|reflexivity].
+Qed.
+Print Assumptions C11_context_blank_or_dot_import_kept.
 
 (* ... and for an UNNAMED matched import the package name is guessed as the last element of
    the path.  When the real package name differs (gopkg.in/yaml.v3 -> yaml) the import is
@@ -36,7 +54,7 @@ Example C11_base_guess_refuted :
   (* the file still says yaml.Unmarshal (atom 3 = "yaml"), the import path's base is "yaml.v3" (atom 4) *)
   let sel := Ptr T_P_ast_SelectorExpr (Struct T_ast_SelectorExpr [Iface T_ast_Expr (id_of 3); id_of 8]) in
   let imps := [{| i_name := None; i_path := 5; i_base := 4 |}] in
-  cleanup_import {| id_bound := []; id_matched := [(5, (None, 4))] |} [] sel imps (5, (None, 4)) = [] /\
+  cleanup_import 98 99 [] {| id_bound := []; id_matched := [(5, (None, 4))] |} [] sel imps (5, (None, 4)) = [] /\
   uses_name 10 3 sel = true.
 Proof. vm_compute. split; reflexivity. Qed.
 
@@ -49,5 +67,5 @@ Example C11_same_path_under_two_names :
                id_matched := [(5, (Some 1, 4)); (5, (Some 2, 4))] |} in
   let imps := [{| i_name := Some 1; i_path := 5; i_base := 4 |}; {| i_name := Some 2; i_path := 5; i_base := 4 |};
                {| i_name := None; i_path := 6; i_base := 6 |}] in
-  fold_left (cleanup_import id [] tree) (id_matched id) imps = [{| i_name := None; i_path := 6; i_base := 6 |}].
+  fold_left (cleanup_import 98 99 [] id [] tree) (id_matched id) imps = [{| i_name := None; i_path := 6; i_base := 6 |}].
 Proof. vm_compute. reflexivity. Qed.
